@@ -76,7 +76,8 @@ EvImport ==
          nul == f.topic \in NulTopics
      IN /\ Judge(ImportVerdict(g, id, f, E.ok) \cup HttpOk(E.status, E.ok, 200))
         /\ IF E.ok
-           THEN /\ g' = ReEvict([g EXCEPT !.acc = Put(@, id, f), !.removed = @ \ {id}, !.gone = @ \ {id}])
+           THEN \* (an id once handed out for an ephemeral append may come back as an imported, stored frame)
+                /\ g' = ReEvict([g EXCEPT !.acc = Put(@, id, f), !.removed = @ \ {id}, !.gone = @ \ {id}, !.eph = @ \ {id}])
                 /\ imported' = imported \cup {id}
                 /\ owed' = owed \ {<<f.ctx, f.topic>>}
                 /\ lost' = lost \ {<<f.ctx, f.topic>>}
